@@ -88,7 +88,10 @@ pub fn load_known() -> Vec<KnownFinding> {
 
 /// signatures tolerated for `prop` (status == "known")
 pub fn known_sigs(prop: &str) -> BTreeSet<String> {
-    load_known()
+    static CACHE: std::sync::OnceLock<Vec<KnownFinding>> = std::sync::OnceLock::new();
+    CACHE
+        .get_or_init(load_known)
+        .clone()
         .into_iter()
         .filter(|k| k.status == "known" && (k.property == prop || prop == "*"))
         .map(|k| k.signature)
